@@ -140,8 +140,16 @@ RECURSIVE LookupS(_, _, _, _, _, _), TargetS(_, _, _, _), ResolveS(_, _, _, _, _
 
 Prov(c, s, id, self) == {j \in ImpIdx(c, s) : j # self /\ Alias(c, j) = id}
 
+(* A block's own `let`s come after the block's import statements (the       *)
+(* configurations are rendered: imports, lets, nested block, reference), so *)
+(* they are not yet declared where an import of that very block is          *)
+(* resolved; parameters and the lets of enclosing blocks are.               *)
+NotYetDeclared(c, s, id, self) ==
+  /\ self \in 1..Len(c.imps) /\ s.t = "b" /\ c.imps[self].sc = s
+  /\ ~\E l \in c.locals : l.i = s.i /\ l.n = id /\ l.param
+
 LookupS(c, md, s, id, self, vis) ==
-  IF HasDecl(c, s, id) THEN Decl(c, s, id)
+  IF HasDecl(c, s, id) /\ ~NotYetDeclared(c, s, id, self) THEN Decl(c, s, id)
   ELSE IF Prov(c, s, id, self) # {}
        THEN LET j == CHOOSE j \in Prov(c, s, id, self) : TRUE
             IN  IF j \in vis THEN Err ELSE TargetS(c, md, j, vis)
